@@ -43,6 +43,13 @@ func (x *Exec) calleeContract(c *ssa.CallCommon) (*FuncContract, string, *ssa.Fu
 	}
 	// dynamic call: provenance
 	key := x.funcValueKey(c.Value)
+	if _, ok := cs.Funcs[key]; !ok {
+		// fall back to a contract for every func value of this signature
+		tk := "functype:" + strings.ReplaceAll(shortTypeName(c.Value.Type().Underlying()), " ", "")
+		if _, ok := cs.Funcs[tk]; ok {
+			key = tk
+		}
+	}
 	if fc, ok := cs.Funcs[key]; ok {
 		if same := fc.Opts["same"]; same != "" {
 			if fc2, ok := cs.Funcs[same]; ok {
